@@ -1715,7 +1715,10 @@ class TimeInterval(Time):
             )
 
     def __mul__(self, other: float | int) -> TimeInterval:
-        super().__mul__(other=other)
+        result = super().__mul__(other=other)
+
+        if not isinstance(other, float | int):
+            return result
 
         if other <= 0:
             raise ValueError(
@@ -1726,7 +1729,10 @@ class TimeInterval(Time):
         return TimeInterval(value=self.__value*other, unit=self.__unit)
 
     def __rmul__(self, other: float | int) -> TimeInterval:
-        super().__rmul__(other=other)
+        result = super().__rmul__(other=other)
+
+        if not isinstance(other, float | int):
+            return result
 
         if other <= 0:
             raise ValueError(
